@@ -1,6 +1,7 @@
 (** Proofs for C16 over the control-flow model of a run (repair-independent lemmas: Proofs/RunLemmas.v). *)
 From Coq Require Import Permutation.
-From RP2V Require Import Base.Prelude Base.Sorting Model.Types Model.Generated Model.MainRun Proofs.RunLemmas.
+From RP2V Require Import Base.Prelude Base.Sorting Model.Types.
+From RP2V Require Import Model.Generated Model.MainRun Proofs.RunLemmas.
 Open Scope Z_scope.
 
 (** ---- finite facts about the regenerated tables (decided by computation) *)
